@@ -11,6 +11,7 @@ import (
 	"github.com/evanoberholster/imagemeta/exif2"
 	"github.com/evanoberholster/imagemeta/exif2/ifds"
 	"github.com/evanoberholster/imagemeta/imagetype"
+	"github.com/evanoberholster/imagemeta/isobmff"
 	"github.com/evanoberholster/imagemeta/jpeg"
 	"github.com/evanoberholster/imagemeta/meta"
 	"github.com/evanoberholster/imagemeta/meta/utils"
@@ -106,6 +107,25 @@ func RunExifEntry(a *exifArgs, sr *SReader) (exif2.Exif, error, int64) {
 	case "Parse":
 		e, err := exif2.Parse(sr)
 		return e, err, consumed
+	case "BmffReader": // the public isobmff.Reader API with the library's own Exif reader as callback
+		br := bufio.NewReaderSize(sr, 4096)
+		ir := exif2.NewIfdReader(exif2.Logger)
+		defer ir.Close()
+		bmr := isobmff.NewReader(br)
+		defer bmr.Close()
+		bmr.ExifReader = ir.DecodeIfd
+		if err := bmr.ReadFTYP(); err != nil {
+			return ir.Exif, err, consumed
+		}
+		for i := 0; i < 8; i++ {
+			if _, perr := br.Peek(8); perr != nil {
+				break // end of file: no further top-level box
+			}
+			if err := bmr.ReadMetadata(); err != nil {
+				return ir.Exif, err, consumed
+			}
+		}
+		return ir.Exif, nil, consumed
 	case "ScanTiff+DecodeTiff": // the documented composition on a caller-owned bufio.Reader
 		br := bufio.NewReaderSize(sr, 4096)
 		h, err := tiff.ScanTiffHeader(br, imagetype.ImageUnknown)
@@ -144,5 +164,12 @@ func init() {
 		SetErr(obs, err, exifSentinels)
 		obs.Req, obs.Reads = sr.Req, sr.Reads
 		JSON(obs, ExifR{F: FlatExif(e), Consumed: consumed})
+	})
+}
+
+func init() {
+	Register("itypes", func(op *core.Op, obs *core.Obs) {
+		JSON(obs, map[string]float64{"TIFF": float64(imagetype.ImageTiff), "JPEG": float64(imagetype.ImageJPEG), "PNG": float64(imagetype.ImagePNG),
+			"CR3": float64(imagetype.ImageCR3), "HEIF": float64(imagetype.ImageHEIF), "AVIF": float64(imagetype.ImageAVIF), "CR2": float64(imagetype.ImageCR2)})
 	})
 }
